@@ -216,6 +216,7 @@ type World struct {
 	UseHTTP bool
 	Crashes []CrashImage
 	crashN  int
+	OnHop   func(n int) // called after the n-th hop was recorded
 	client  *http.Client
 	Failed  string // set when the world could not be driven (not a property failure)
 }
@@ -514,6 +515,9 @@ func readStatsFileIn(dir string) ([]server.AllDeviceStats, bool) {
 func (w *World) hop(s string, desc interface{}) {
 	w.Hops = append(w.Hops, s)
 	w.Desc = append(w.Desc, desc)
+	if w.OnHop != nil {
+		w.OnHop(len(w.Hops))
+	}
 }
 
 // Datagram delivers a datagram through the synchronous injection wrapper.
